@@ -208,7 +208,7 @@ def probe(pid: str, entry: str) -> Tuple[str, str, int, str, int]:
 
 
 def main() -> int:
-    pids = [a for a in sys.argv[1:] if a.startswith("C") and len(a) == 3] or ["C%02d" % i for i in range(1, 20)]
+    pids = [a for a in sys.argv[1:] if a.startswith("C") and len(a) == 3] or ["C%02d" % i for i in range(1, 21)]
     only = [a for a in sys.argv[1:] if not (a.startswith("C") and len(a) == 3)]
     jobs = []
     for pid in pids:
